@@ -89,7 +89,7 @@ def main(repo, outdir):
               "  : option ((St * Cov) * (N * St * Cov)) :=\n" + indent(body2) + ".\n")
         txt = HEADER + "\n" + d1 + "\n" + d2 + "\nEnd RuntimePy.\n"
         txt += "\n(* skipped (non-functional) statements: " + "; ".join(tr.skipped + tr2.skipped).replace("*)", "* )") + " *)\n"
-    except Untranslatable as e:
+    except Exception as e:
         open(out, "w").write(f"(* TRANSLATION FAILED (fail closed): {str(e).replace('*)', '* )')} *)\n"
                              "Definition translation_failed : False := I.\n")
         print("UNTRANSLATABLE", e)
